@@ -7,7 +7,7 @@ PROPERTY = "C22"
 LEVEL = "exploration"
 RULE = (
     "case = generated project (file kinds x warnings= x ignore= x noqa x inline config, see C19) or one of 13 usage/configuration-error scenarios; the real CLI is run in fresh processes: "
-    "lint <path>, lint - (stdin), lint --nofail, fix <path>, fix - (stdin), format <path>; expected exit status comes from an independent model fed by one API run in another fresh process "
+    "lint <path>, lint - (stdin), lint --nofail, fix <path>, fix - (stdin), format <path>, and lint/fix on a directory of 2-3 such files (worst per-file expectation); expected exit status comes from an independent model fed by one API run in another fresh process "
     "(violations after ignore+noqa with their warning / fixable / TMP-PRS flags, count of unfiltered TMP/PRS, fix_even_unparsable): lint -> 1 iff some non-warning violation is shown; "
     "fix/format -> 1 iff some shown non-warning violation is a TMP/PRS error or a lint violation that stays unfixed (no fix, or fixing blocked by any TMP/PRS error); usage/config errors -> 2; "
     "distinct = scenario hash; non-trivial = at least one violation exists in the file or the scenario is a usage error"
@@ -43,6 +43,7 @@ def cases(tier, seed):
     if tier == "quick":
         ids = ids[:60]
     out = [{"id": f"scen:{i}", "kind": "scen", "idx": i} for i in ids]
+    out += [{"id": f"multi:{i}", "kind": "multi", "idx": i} for i in ids[: max(12, len(ids) // 4)]]
     out += [{"id": f"usage:{i}", "kind": "usage", "u": i} for i in range(len(USAGE))]
     return out
 
@@ -79,9 +80,46 @@ def run_usage(case):
         pj.close()
 
 
+def run_multi(case):
+    """Several files in one directory: the run's exit status is the worst of the per-file expectations."""
+    base = cliscen.gen(case["idx"])
+    base["subdir"] = ""
+    base["nested"] = None
+    base["config"]["core"].pop("fix_even_unparsable", None)
+    extra = {}
+    for j, name in enumerate(("b.sql", "c.sql")[: 1 + case["idx"] % 2]):
+        extra[name] = cliscen.gen(case["idx"] * 7 + j + 1)["sql"] if base["config"]["core"].get("templater") == "jinja" else cliscen.gen(case["idx"] * 7 + j + 1)["sql"].replace("{{", "(").replace("}}", ")").replace("{%", "").replace("%}", "")
+    base["extra_files"] = extra
+    pj = cliscen.Project(base)
+    fails = []
+    try:
+        exp_l, exp_f = 0, 0
+        models = {}
+        for rel in [pj.rel] + sorted(extra):
+            m = pj.api("model", rel=rel)
+            if "shown" not in m:
+                return {"status": "skip", "counters": {"model_run_failed": 1}, "detail": m}
+            models[rel] = m
+            l, f = expected_exits(m)
+            exp_l, exp_f = max(exp_l, l), max(exp_f, f)
+        rc_l = pj.cli(["lint", ".", "--nocolor"])[0]
+        rc_f = pj.cli(["fix", ".", "--nocolor"])[0]
+        counters = {"exit_codes_compared": 2, "multi_file_runs": 1}
+        if rc_l != exp_l:
+            fails.append({"sig": f"multi_lint_exit_{rc_l}_expected_{exp_l}", "detail": {"models": models, "files": {pj.rel: base["sql"], **extra}, "config": base["config"]}})
+        if rc_f != exp_f:
+            fails.append({"sig": f"multi_fix_exit_{rc_f}_expected_{exp_f}", "detail": {"models": models, "files": {pj.rel: base["sql"], **extra}, "config": base["config"]}})
+        return {"status": "fail" if fails else "pass", "failures": fails, "counters": counters, "key": case["id"] if any(m["shown"] or m["n_unfiltered_tmp_prs"] for m in models.values()) else None,
+                "sample": {"files": list(models), "expected": [exp_l, exp_f], "observed": [rc_l, rc_f]} if case["idx"] % 20 == 0 else None}
+    finally:
+        pj.close()
+
+
 def run_case(case):
     if case["kind"] == "usage":
         return run_usage(case)
+    if case["kind"] == "multi":
+        return run_multi(case)
     scen = cliscen.gen(case["idx"])
     pj = cliscen.Project(scen)
     fails = []
